@@ -17,9 +17,15 @@ CFG = {
         'PrimFloat.float', 'PrimFloat.abs', 'PrimFloat.div', 'PrimFloat.eqb', 'PrimFloat.ltb',
         'PrimFloat.frshiftexp', 'PrimFloat.normfr_mantissa',
         'PrimInt63.int', 'PrimInt63.eqb', 'PrimInt63.land', 'PrimInt63.lsr',
-        # same primitives as printed when Coq.Floats is imported unqualified
+        # same primitives as printed when Coq.Floats is imported unqualified (Props/C18.v imports it)
         'float', 'abs', 'div', 'ltb', 'frshiftexp', 'normfr_mantissa',
-        'PrimFloat.add', 'PrimFloat.sub', 'PrimFloat.mul', 'PrimFloat.leb', 'add', 'sub', 'mul', 'leb',
+        'PrimFloat.add', 'PrimFloat.sub', 'PrimFloat.mul', 'PrimFloat.leb', 'PrimFloat.opp', 'add', 'sub', 'mul', 'leb', 'opp',
+        'PrimFloat.of_uint63', 'of_uint63', 'PrimFloat.ldshiftexp', 'ldshiftexp',
+        'PrimInt63.sub', 'PrimInt63.lsl', 'PrimInt63.lor',
+        # only for C18_z_symmetric_binary64 (bit-level symmetry of the executable PrimFloat instance): the standard
+        # library's specification of the primitive abs / opp and the injectivity of Prim2SF (Coq.Floats.FloatAxioms)
+        'abs_spec', 'opp_spec', 'SF2Prim_Prim2SF',
+        'FloatAxioms.abs_spec', 'FloatAxioms.opp_spec', 'FloatAxioms.SF2Prim_Prim2SF',
     ],
     'uses_gen': True,
     'rule': 'public API SpacePoint::try_from(Avalanche{t, phi, z}) compared bit for bit with the extracted PrimFloat model: '
@@ -45,12 +51,15 @@ CFG = {
         'uom 0.35 Quantity<f64> arithmetic in SI base units is plain f64 arithmetic (change_base multiplies/divides by 1.0), '
         'read in the uom source; serde representation of a Quantity is its bare value',
         'extraction: ExtrOCamlFloats (float -> Float64, OCaml native doubles), coq-core.kernel Float64',
+        'Coq.Floats.FloatAxioms abs_spec / opp_spec / SF2Prim_Prim2SF (only C18_z_symmetric_binary64)',
+        'the sharper continuity bound (max instead of sum of the two touched tabulated steps for lookups 8 ns apart that '
+        'straddle a knot) is NOT proved; it is checked on the implementation by the rel-drift-step8 lines with 1e-12 m slack',
     ],
     'level_text': 'Coq theorems over R with Flocq round-to-nearest-even (binary64 format, FLT_exp (-1074) 53) applied after every '
                   'operation, for ANY table satisfying table_ok and for all representable inputs: success iff |z| <= zmax and '
                   't within first/last time of the slice (with the two error kinds), rhs_index >= 1 (no underflow/panic, both '
                   'overflow modes agree), radius within [min,max] of the slice, non-increasing in t, exact at every tabulated time, '
-                  'identical for z and -z, correction within [0, slice max]; the 0.5 mm / 8 ns claim is reduced to the tabulated '
+                  'identical for z and -z (also proved at bit level for the executable binary64 instance, NaN included), correction within [0, slice max]; the 0.5 mm / 8 ns claim is reduced to the tabulated '
                   'steps, proved for all segments outside the listed known class and refuted by a computed witness inside it (F8). '
                   'table_ok of the CURRENT tables is re-proved by vm_compute on every run from the regenerated Gen/Drift.v.',
     'level_note': 'trusted: Coq kernel + VM; the R-with-rounding instance is tied to the PrimFloat instance by construction (one '
